@@ -64,7 +64,60 @@ def build(seed, prop):
                 t = rng.choice(asserted)
                 neg = T("!", (T("not", (t,)),), "Bool", g.tg.fresh_name())
                 out.append({"k": "assert", "term": neg})
-    return g.header(options) + gen.dedup_asserts(out, rng)
+    # a level that is pushed, given an assertion and popped again without ever being checked; its formula later occurs as a
+    # sub-term of other assertions.  The popped assertion must leave no partition information behind.
+    if rng.random() < 0.3:
+        ghost = strip_named(g.assertion(depth=rng.choice([0, 0, 1]))["term"])
+        pre = [{"k": "push", "n": 1}, {"k": "assert", "term": T("!", (ghost,), "Bool", g.tg.fresh_name())}, {"k": "pop", "n": 1}]
+        out2 = []
+        for c in out:
+            if c["k"] == "assert" and rng.random() < 0.3:
+                t = c["term"]
+                if t.op == "!":
+                    c = {"k": "assert", "term": T("!", (T(rng.choice(["and", "or"]), (t.args[0], ghost), "Bool"),), "Bool", t.val)}
+                else:
+                    c = {"k": "assert", "term": T("and", (ghost, t), "Bool")}
+            out2.append(c)
+        pos = rng.randint(0, min(3, len(out2)))
+        out = out2[:pos] + pre + out2[pos:]
+    out = gen.dedup_asserts(out, rng)
+    # "a popped assertion leaves no trace" template: an atom over x is asserted in a level that is popped without a check;
+    # afterwards the atom occurs only inside A together with the A-local x, B contradicts A through the shared y
+    if rng.random() < 0.35:
+        from ..terms import mkvar, mknum
+        lname = gen.LOGICS[logic]["name"]
+        tpl = None
+        na, nb, nz = g.tg.fresh_name(), g.tg.fresh_name(), g.tg.fresh_name()
+        if lname in ("QF_LRA", "QF_LIA"):
+            srt = "Real" if lname == "QF_LRA" else "Int"
+            vs = g.sig.consts.get(srt, [])
+            if len(vs) >= 2:
+                x, y = [mkvar(n, srt) for n in rng.sample(vs, 2)]
+                c = rng.randint(-3, 3)
+                atom = T("<=", (x, mknum(c, srt)), "Bool")
+                a_t = T("and", (T("<=", (y, x), "Bool"), atom), "Bool")
+                b_t = T(">=", (y, mknum(c + rng.randint(1, 3), srt)), "Bool")
+                tpl = (atom, a_t, b_t)
+        elif g.sig.sorts:
+            srt = g.sig.sorts[0]
+            vs = g.sig.consts.get(srt, [])
+            preds = [f for f in g.sig.funs if f[2] == "Bool" and f[1] == (srt,)]
+            if len(vs) >= 2 and preds:
+                x, y = [mkvar(n, srt) for n in rng.sample(vs, 2)]
+                pn = preds[0][0]
+                atom = T(pn, (x,), "Bool")
+                a_t = T("and", (atom, T("=", (x, y), "Bool")), "Bool")
+                b_t = T("not", (T(pn, (y,), "Bool"),), "Bool")
+                tpl = (atom, a_t, b_t)
+        if tpl:
+            atom, a_t, b_t = tpl
+            # in a level of its own at the start of the script, so that nothing else is on the stack
+            out = [{"k": "push", "n": 1},
+                   {"k": "push", "n": 1}, {"k": "assert", "term": T("!", (atom,), "Bool", nz)}, {"k": "pop", "n": 1},
+                   {"k": "assert", "term": T("!", (a_t,), "Bool", na)}, {"k": "assert", "term": T("!", (b_t,), "Bool", nb)},
+                   {"k": "check-sat"}, {"k": "get-interpolants", "groups": [[na], [nb]], "force_and": False},
+                   {"k": "pop", "n": 1}] + out
+    return g.header(options) + out
 
 
 def expand_symbols(t, defs):
